@@ -14,6 +14,7 @@ package core
 
 import (
 	"encoding/json"
+	"errors"
 	"math/rand"
 	"strings"
 	"time"
@@ -88,6 +89,12 @@ func Gensym(n int) string {
 func Canonicalize(x interface{}) (interface{}, error) {
 	var err error
 
+	// Some YAML deserializers make map[interface{}]interface{},
+	// which encoding/json refuses to marshal.
+	if x, err = stringKeys(x, 0); err != nil {
+		return nil, err
+	}
+
 	js, err := json.Marshal(&x)
 	if err != nil {
 		return nil, err
@@ -112,4 +119,52 @@ func Unquestion(p string) string {
 		return p[1:]
 	}
 	return p
+}
+
+// stringKeys returns x with every map[interface{}]interface{}
+// replaced by a map[string]interface{} (recursively).  The input is
+// not modified.  Like encoding/json, gives up on values nested more
+// than a thousand levels deep (which includes cyclic values).
+func stringKeys(x interface{}, depth int) (interface{}, error) {
+	if 1000 < depth {
+		return nil, errors.New("Canonicalize encountered a cycle or a value nested too deeply")
+	}
+	switch vv := x.(type) {
+	case map[interface{}]interface{}:
+		m := make(map[string]interface{}, len(vv))
+		for k, v := range vv {
+			s, is := k.(string)
+			if !is {
+				return nil, errors.New("Canonicalize encountered a non-string key")
+			}
+			y, err := stringKeys(v, depth+1)
+			if err != nil {
+				return nil, err
+			}
+			m[s] = y
+		}
+		return m, nil
+	case map[string]interface{}:
+		m := make(map[string]interface{}, len(vv))
+		for k, v := range vv {
+			y, err := stringKeys(v, depth+1)
+			if err != nil {
+				return nil, err
+			}
+			m[k] = y
+		}
+		return m, nil
+	case []interface{}:
+		xs := make([]interface{}, len(vv))
+		for i, v := range vv {
+			y, err := stringKeys(v, depth+1)
+			if err != nil {
+				return nil, err
+			}
+			xs[i] = y
+		}
+		return xs, nil
+	default:
+		return x, nil
+	}
 }
